@@ -177,6 +177,38 @@ def gen_preset_case(rng, cid, transport, kind):
             "distance": d}
 
 
+def gen_pool_case(rng, transport):
+    """a real Service whose handler runs the requests on a small worker pool (Handler.Pool: two workers, a queue of eight):
+    20..40 concurrent calls on one connection, so that tasks do wait in the pool's queue"""
+    n = rng.choice([20, 24, 30, 36, 40])
+    delays = [rng.choice([0, 0, 0, 1, 2, 5]) for _ in range(n)]
+    steps = [["call", k, 0, delays[k]] for k in range(n)]
+    steps += [["await_ret", k, 6000] for k in range(n)]
+    steps += [["sleep", 20], ["probe", "end"]]
+    return {"fam": "pool", "transport": transport, "peer": "service", "pool": True, "steps": steps, "hook": False, "n": n,
+            "order": "random"}
+
+
+def gen_rev_mixed_case(rng):
+    """reverse.Caller with a real reverse.Provider whose functions succeed, return an error, or panic, mixed in ONE batch:
+    some warm-up calls to another provider first (so that the identifiers of the batch differ from their slots in it), then the
+    batch is queued while the provider is not listening yet and fetched at once"""
+    w = rng.choice([1, 2, 3, 4, 6])
+    n = rng.choice([4, 6, 8, 10])
+    methods = [rng.choice(["echo", "echo", "fail", "boom", "boom"]) for _ in range(n)]
+    if "boom" not in methods:
+        methods[rng.randrange(n)] = "boom"
+    steps = []
+    for j in range(w):
+        steps += [["invoke", 100 + j, "pw", 0, 0, "echo"], ["await_ret", 100 + j, 3000]]
+    for k in range(n):
+        steps.append(["invoke", k, "pa", 0, rng.choice([0, 0, 10, 25]) if methods[k] == "echo" else 0, methods[k]])
+    steps += [["sleep", 60], ["listen", "pa"]]
+    steps += [["await_ret", k, 3000] for k in range(n)]
+    return {"fam": "rev-mixed", "kind": "reverse", "rev": {"providers": ["pw", "pa"], "mode": "real", "late": ["pa"], "caller_timeout_ms": 1500},
+            "steps": steps, "n": n, "methods": methods, "warmups": w}
+
+
 def gen_first_select_case(cid, transport):
     """hook: Send is held with caller 0's request in hand, so callers 1 and 2 sit in their FIRST select with nobody to take
     their requests; caller 1 is cancelled there (case <-ctx.Done(): c.delete(index) of the first select); then Send goes on
@@ -267,6 +299,8 @@ def gen_cases(ctx, hook):
             add(c)
         for _ in range(3 if quick else 15):
             add(gen_svc_case(rng, 0, t))
+        for _ in range(2 if quick else 8):
+            add(gen_pool_case(rng, t))
     for t in ("tcp", "ws", "udp"):
         add(gen_nowrap_real(0, t, 200 if quick else 1500))
     if not (quick and hook):
@@ -278,6 +312,8 @@ def gen_cases(ctx, hook):
         add(gen_rev_case(rng, 0, "script"))
     for _ in range(2 if quick else 10):
         add(gen_rev_case(rng, 0, "real"))
+    for _ in range(4 if quick else 20):
+        add(gen_rev_mixed_case(rng))
     if hook:
         for t in ("tcp", "ws", "udp"):
             add(gen_first_select_case(0, t))
@@ -343,7 +379,12 @@ def ops_from_log(case, obs):
                 op(["s", "h%d" % k], ("s", 0))
                 stored.add(k)
             elif e["e"] == "prov-send" and e["i"] >= 0:
-                op(["ans", "h%d" % k])
+                if k in known and idx_of.get(k) == e["i"]:
+                    op(["ans", "h%d" % k])
+                else:
+                    # a result returned under an identifier that is not this call's (or for a call never fetched): for the
+                    # table it is a reply with an index of the provider's invention
+                    op(["stray", e["c"], e["i"]])
                 op(["dl", e["c"], e["i"]], None)
             elif e["e"] == "prov-stray":
                 op(["stray", e["c"], e["i"]])
@@ -501,6 +542,10 @@ def compare(case, obs, ops, expect, out):
         if tok.startswith("t:Rh"):
             prov = int(tok[4:])
             want = "own" if prov == k else "other:%d" % prov
+            if res.startswith("ownerr"):
+                res = "own"
+            if res.startswith("othererr:"):
+                res = "other:" + res.split(":", 1)[1]
             if res != want:
                 return "caller %d returned %r, the model says it holds the reply to request %d" % (k, res, prov)
         elif tok == "t:R-":
@@ -530,8 +575,25 @@ def oracle(case, obs):
     if perr:
         return ("c09:rev:provider-call-failed", "reverse: a scripted provider's call to the Caller failed: %s (a result that nobody waits for must be "
                 "dropped, not block the '=' call)" % perr[0].get("s", "")[:120])
+    # 0. reverse: a provider returns the outcome of a call under that call's identifier (not under its slot in the batch)
+    if case.get("kind") == "reverse":
+        fetched = {e["k"]: e for e in log if e["e"] == "prov-recv" and e["i"] >= 0 and e["k"] >= 0}
+        for e in log:
+            if e["e"] == "prov-send" and e["k"] >= 0 and e["k"] in fetched and e["i"] != fetched[e["k"]]["i"]:
+                return ("c09:rev:outcome-reported-under-wrong-identifier",
+                        "reverse: the provider returned the outcome of caller %d's call (identifier %d, slot %d of its batch) under identifier %d: "
+                        "its caller gets nothing (%s) and whoever holds identifier %d may get it"
+                        % (e["k"], fetched[e["k"]]["i"], fetched[e["k"]].get("x", 0), e["i"], res.get(str(e["k"]), "still waiting")[:30], e["i"]))
+    if case["fam"] == "rev-mixed":
+        for k, meth in enumerate(case["methods"]):
+            want = "own" if meth == "echo" else "ownerr:" + meth
+            if res.get(str(k)) != want and not hv_is_env(res.get(str(k), "")):
+                return ("c09:rev:wrong-outcome", "reverse: caller %d invoked %s and got %r (expected %s: the outcome of its own call)"
+                        % (k, meth, res.get(str(k)), want))
     # 1. nobody returns somebody else's reply, a stray or a made-up body
     for k, r in sorted(res.items(), key=lambda kv: int(kv[0])):
+        if r.startswith("othererr:"):
+            return ("c09:%s:wrong-response" % t, "%s: caller %s returned the error of caller %s's call" % (t, k, r.split(":")[1]))
         if r.startswith("other:") or r.startswith("resp:"):
             d = reuse_distance(case, obs, int(k))
             if d:
@@ -548,7 +610,7 @@ def oracle(case, obs):
     cancelled = {e["k"] for e in log if e["e"] == "user-cancel"}
     for k, q in first_send.items():
         r = res.get(str(k))
-        if r is None or r == "own":
+        if r is None or r.startswith("own"):
             continue
         if is_filler(case, k):
             # the fillers of the wrap scenarios run with a 400 ms deadline on purpose; one that expires while its reply is on the
@@ -575,12 +637,12 @@ def oracle(case, obs):
                 return ("c09:%s:pending-index-reissued-after-%d-calls" % (t, d),
                         "%s: caller %d ended in %s although the peer had answered it: its index had been issued again after %d calls" % (t, k, r, d))
             return ("c09:%s:response-lost" % t, "%s: caller %d ended in %s although the peer answered it while it was waiting" % (t, k, r))
-        if r.startswith("error") and case["fam"] in ("peer", "svc", "rev-real", "rev-script", "nowrap"):
+        if r.startswith("error") and case["fam"] in ("peer", "svc", "pool", "rev-real", "rev-script", "nowrap"):
             if hv_is_env(r):
                 continue
             return ("c09:%s:call-failed" % t, "%s: caller %d failed with %s on a healthy connection" % (t, k, r))
     # 3. with a healthy real service every call succeeds
-    if case["fam"] in ("svc", "rev-real"):
+    if case["fam"] in ("svc", "rev-real", "pool"):
         for k in range(case["n"]):
             r = res.get(str(k))
             if r != "own" and not (r and hv_is_env(r)):
